@@ -107,9 +107,10 @@ def r2(ctx, F):
         good = False
         if len(pushes) == 1:
             a = prov.prov_of(g).call_args(pushes[0][0])
-            good = as_param_path(a[0]) == (1, ()) and as_param_path(a[1]) == (2, ()) and as_param_path(rv) == (1, ())
-        ctx.require(good, 'C16-R2', 'get_current_strain_peaks', 'pushes current_section_peak onto strain_peaks and returns it', g.where(),
-                    bad='StrainSkill::get_current_strain_peaks no longer appends the open section: %s' % prov.show(rv, maxdepth=4))
+            good = as_param_path(a[0]) == (1, ()) and as_param_path(a[1]) == (2, ()) and as_param_path(rv) == (1, ()) and \
+                g.cfg.must_pass_through(0, {pushes[0][0]})      # unconditionally: a skipped section shifts that skill against its siblings
+        ctx.require(good, 'C16-R2', 'get_current_strain_peaks', 'pushes current_section_peak onto strain_peaks on every path and returns it', g.where(),
+                    bad='StrainSkill::get_current_strain_peaks does not append the open section on every path (all skills of a mode must report the same number of sections): %s' % prov.show(rv, maxdepth=4))
     for f in F.fns:
         if f.impl_trait == TRAIT and f.name in ('into_current_strain_peaks', 'into_difficulty_value', 'cloned_difficulty_value'):
             ctx.saw(f)
